@@ -16,8 +16,9 @@
 --     `verify` up to `VerifierChannel::new`): C06's parser and front-end theorems composed with the verdict
 --     mapping.  Panic verdicts that remain possible: `AIR::new` and `evaluate_constraints` on a trace shape the
 --     computation does not fit — these are panics of the REAL code (recorded finding c06.verify.air-new,
---     witness below) — and the internal index sites of the value-producing channel parse and of the layer loop,
---     whose unreachability is stated (`RefVerifyTotal`) and not proved here.
+--     witness below) — and the internal index sites of the decision function's layer loop, whose unreachability
+--     is stated (`RefVerifyTotal`) and not proved here.  The value-producing channel parse is proved panic free
+--     on every parsed proof (`channelParse_np`).
 import WinterProofs.C06
 import WinterProofs.Lemmas.C02Decision
 import WinterProofs.Lemmas.C03Bind
@@ -308,6 +309,235 @@ theorem refVerify_ok_implies (d : Desc) (pubs : List Nat) (acc : Acceptable) (bs
     rw [mk_merkle, mk_hashElems] at this
     exact this
 
+/-! ## (1b) the value-producing channel parse does not panic on a parsed proof -/
+
+section channel
+open Model.Serde WinterProofs.C12L
+
+/-- a decoder without a panic outcome -/
+def NoPanic {α : Type} (d : Dec α) : Prop := ∀ bs, d bs ≠ .panic
+
+theorem np_pure {α : Type} (a : α) : NoPanic (pure a : Dec α) := by
+  intro bs h; rw [pure_apply] at h; cases h
+
+theorem np_fail {α : Type} : NoPanic (Dec.fail : Dec α) := by
+  intro bs h; rw [fail_apply] at h; cases h
+
+theorem np_bind {α β : Type} {d : Dec α} {f : α → Dec β} (hd : NoPanic d) (hf : ∀ a, NoPanic (f a)) :
+    NoPanic (d >>= f) := by
+  intro bs h
+  rw [bind_apply] at h
+  split at h
+  · exact hf _ _ h
+  · cases h
+  · cases h
+  · rename_i hp; exact hd bs hp
+
+theorem np_ite {α : Type} {c : Prop} [Decidable c] {a b : Dec α} (ha : NoPanic a) (hb : NoPanic b) :
+    NoPanic (if c then a else b) := by
+  split <;> assumption
+
+theorem np_readU8 : NoPanic readU8 := by
+  intro bs h; cases bs <;> cases h
+
+theorem np_readSlice (n : Nat) : NoPanic (readSlice n) := by
+  intro bs h; unfold readSlice at h; split at h <;> cases h
+
+theorem np_readUInt (n : Nat) : NoPanic (readUInt n) :=
+  np_bind (np_readSlice n) (fun _ => np_pure _)
+
+theorem np_readMany {α : Type} {d : Dec α} (hd : NoPanic d) : ∀ n, NoPanic (readMany d n)
+  | 0 => np_pure _
+  | n + 1 => np_bind hd (fun _ => np_bind (np_readMany hd n) (fun _ => np_pure _))
+
+theorem np_elem (F : FieldImpl) : NoPanic (elem F).dec :=
+  np_bind (np_readUInt _) (fun _ => np_ite np_fail (np_pure _))
+
+theorem np_extElem (F : FieldImpl) (k : Nat) : NoPanic (extElem F k).dec := np_readMany (np_elem F) k
+
+theorem np_elemDigest64 : NoPanic elemDigest64.dec :=
+  np_bind (np_readMany (np_readUInt 8) 4) (fun _ => np_pure _)
+
+theorem np_deserializeNodes {δ : Type} {d : Codec δ} (hd : NoPanic d.dec) : NoPanic (deserializeNodes d) :=
+  np_bind np_readU8 (fun _ => np_readMany (np_bind np_readU8 (fun _ => np_readMany hd _)) _)
+
+theorem runAll_np {α : Type} {d : Dec α} (hd : NoPanic d) (bs : Bytes) : runAll d bs ≠ .panic := by
+  unfold runAll
+  split
+  · split <;> simp
+  · simp
+  · simp
+  · rename_i hp; exact absurd hp (hd bs)
+
+theorem commitmentsParse_np {δ : Type} {d : Codec δ} (hd : NoPanic d.dec) (bytes : Bytes) (nt nf : Nat) :
+    commitmentsParse d bytes nt nf ≠ .panic :=
+  runAll_np (np_bind (np_readMany hd nt) (fun _ => np_bind hd (fun _ => np_bind (np_readMany hd _) (fun _ => np_pure _)))) bytes
+
+theorem tableFromBytes_np {ε : Type} {e : Codec ε} (he : NoPanic e.dec) (bytes : Bytes) (rows cols : Nat)
+    (hr : rows ≠ 0 ∧ rows ≤ 255) (hc : cols ≠ 0 ∧ cols ≤ 255) : tableFromBytes e bytes rows cols ≠ .panic := by
+  unfold tableFromBytes
+  rw [if_neg (by simp only [Gen.Limits.MAX_ROWS, Gen.Limits.MAX_COLS]; omega)]
+  split
+  · simp
+  · simp
+  · simp
+  · rename_i hp; exact absurd hp (np_readMany (np_readMany he cols) rows bytes)
+
+theorem queriesParse_np {ε δ : Type} {e : Codec ε} {d : Codec δ} (he : NoPanic e.dec) (hd : NoPanic d.dec)
+    (eb : Nat) (q : Queries) (depth rows cols : Nat) (hr : rows ≠ 0 ∧ rows ≤ 255) (hc : cols ≠ 0 ∧ cols ≤ 255) :
+    queriesParse e eb d q depth rows cols ≠ .panic := by
+  unfold queriesParse
+  rw [if_neg (by omega)]
+  split
+  · simp
+  · split
+    · split
+      · simp
+      · split
+        · split <;> simp
+        · simp
+        · simp
+        · rename_i hp; exact absurd hp (np_deserializeNodes hd q.paths)
+    · simp
+    · simp
+    · rename_i hp; exact absurd hp (tableFromBytes_np he q.values rows cols hr hc)
+
+theorem remainderParse_np {ε : Type} {e : Codec ε} (he : NoPanic e.dec) (eb : Nat) (heb : eb ≠ 0) (bytes : Bytes) :
+    remainderParse e eb bytes ≠ .panic := by
+  unfold remainderParse
+  rw [if_neg heb]
+  split
+  · simp
+  · exact runAll_np (np_readMany he _) bytes
+
+theorem friLayerParse_np {ε δ : Type} {e : Codec ε} {d : Codec δ} (he : NoPanic e.dec) (hd : NoPanic d.dec)
+    (eb : Nat) (l : FriLayer) (depth folding : Nat) (hnz : eb * folding ≠ 0) :
+    friLayerParse e eb d l depth folding ≠ .panic := by
+  unfold friLayerParse
+  simp only []
+  rw [if_neg hnz]
+  split
+  · simp
+  · split
+    · simp
+    · split
+      · split
+        · simp
+        · split
+          · simp
+          · simp
+          · simp
+          · rename_i hp; exact absurd hp (runAll_np (np_deserializeNodes hd) l.paths)
+      · simp
+      · simp
+      · rename_i hp
+        exact absurd hp (runAll_np (np_readMany (np_readMany he folding) _) l.values)
+
+theorem friLayersParse_np {ε δ : Type} {e : Codec ε} {d : Codec δ} (he : NoPanic e.dec) (hd : NoPanic d.dec)
+    (eb folding : Nat) (hnz : eb * folding ≠ 0) :
+    ∀ (ls : List FriLayer) (dom : Nat), friLayersParse e eb d folding ls dom ≠ .panic
+  | [], _ => by simp [friLayersParse]
+  | l :: ls, dom => by
+    unfold friLayersParse
+    split
+    · simp
+    · split
+      · split
+        · simp
+        · simp
+        · simp
+        · rename_i hp; exact absurd hp (friLayersParse_np he hd eb folding hnz ls _)
+      · simp
+      · simp
+      · rename_i hp; exact absurd hp (friLayerParse_np he hd eb l _ folding hnz)
+
+theorem oodParse_np {ε : Type} {e : Codec ε} (he : NoPanic e.dec) (f : OodFrame) (main aux nev : Nat)
+    (hm : main ≠ 0) (hn : nev ≠ 0) : oodParse e f main aux nev ≠ .panic := by
+  unfold oodParse
+  rw [if_neg (by omega)]
+  simp only []
+  repeat' split
+  all_goals first
+    | (simp; done)
+    | exact absurd ‹runAll _ f.evaluations = Serde.Res.panic› (runAll_np (np_readMany he nev) f.evaluations)
+    | exact absurd ‹runAll _ f.traceStates = Serde.Res.panic›
+        (runAll_np (np_bind np_readU8 (fun _ => np_ite np_fail (np_readMany he _))) f.traceStates)
+    | exact absurd ‹runAll _ f.lagrange = Serde.Res.panic›
+        (runAll_np (np_bind np_readU8 (fun _ =>
+          np_ite (np_bind (np_readMany he _) (fun _ => np_pure _)) (np_pure _))) f.lagrange)
+
+/-- `channelParse` has no panic outcome when the proof carries one query set per trace segment, at most 255 unique
+    queries, and the widths are those of a well-formed trace info / of an AIR with 1..255 composition columns -/
+theorem channelParse_np (cfg : ChanCfg) (p : Proof) (hd : NoPanic cfg.digest.dec)
+    (hseg : p.traceQueries.length = cfg.numSegments) (hseg1 : 1 ≤ cfg.numSegments)
+    (hnuq : p.numUniqueQueries ≤ 255)
+    (hmain : cfg.mainWidth ≠ 0 ∧ cfg.mainWidth ≤ 255)
+    (haux : 2 ≤ cfg.numSegments → cfg.auxWidth ≠ 0 ∧ cfg.auxWidth ≤ 255)
+    (hcw : cfg.constraintWidth ≠ 0 ∧ cfg.constraintWidth ≤ 255)
+    (heb : cfg.F.bytes * cfg.ext ≠ 0) (hfold : cfg.folding ≠ 0) :
+    channelParse cfg p ≠ .panic := by
+  have hE := np_extElem cfg.F cfg.ext
+  have hB := np_extElem cfg.F 1
+  unfold channelParse
+  simp only []
+  split
+  · rename_i hp; exact absurd hp (commitmentsParse_np hd _ _ _)
+  · simp
+  · simp
+  · split
+    · simp
+    · rename_i hq0
+      rw [if_neg (by simp [hseg])]
+      split
+      · rename_i hnil; rw [hnil] at hseg; simp at hseg; omega
+      · rename_i mq restq hcons
+        split
+        · rename_i hp
+          exact absurd hp (queriesParse_np hB hd _ mq _ _ _ ⟨hq0, hnuq⟩ hmain)
+        · simp
+        · simp
+        · split
+          · rename_i hp
+            split at hp
+            · cases hp
+            · rename_i aq rest'
+              have h2 : 2 ≤ cfg.numSegments := by
+                rw [← hseg, hcons]; simp
+              split at hp
+              · cases hp
+              · cases hp
+              · cases hp
+              · rename_i hpp
+                exact absurd hpp (queriesParse_np hE hd _ aq _ _ _ ⟨hq0, hnuq⟩ (haux h2))
+          · simp
+          · simp
+          · split
+            · rename_i hp
+              exact absurd hp (queriesParse_np hE hd _ _ _ _ _ ⟨hq0, hnuq⟩ hcw)
+            · simp
+            · simp
+            · split
+              · simp
+              · split
+                · rename_i hp; exact absurd hp (remainderParse_np hE _ heb _)
+                · simp
+                · simp
+                · split
+                  · rename_i hp
+                    exact absurd hp (friLayersParse_np hE hd _ _ (Nat.mul_ne_zero heb hfold) _ _)
+                  · simp
+                  · simp
+                  · split
+                    · rename_i hp
+                      exact absurd hp (oodParse_np hE _ _ _ _ hmain.1 hcw.1)
+                    · simp
+                    · simp
+                    · split
+                      · simp
+                      · split <;> simp
+
+end channel
+
 /-! ## (1) no panic on untrusted bytes -/
 
 open Model.Parse WinterProofs.C06 WinterProofs.C06L in
@@ -330,18 +560,15 @@ def RefVerifyTotal (d : Desc) : Prop :=
 open Model.Parse WinterProofs.C06 WinterProofs.C06L in
 /-- PARTIAL (proved for every byte string): a panic verdict of the reference verifier never comes from the
     byte-level part — not from `Proof::from_bytes`, not from the security estimate, not from the front end of
-    `verify` up to and including `VerifierChannel::new` as modelled by `Parse.verifyFront` (C06).  It is one of:
-    the two panics of the real code named in `RefVerifyTotal`; the panic outcome of the value-producing channel
-    parse (`channelParse`, a second model of `VerifierChannel::new` whose agreement with `Parse.channelNew` is
-    tested, not proved); or a panic site of the decision function `VerifierChecks.verify` reached AFTER the whole
-    front end passed (its index sites `fold_positions`, `get_query_values`, … — unreachability not proved).
-    Missing from the full statement: exactly the last two alternatives. -/
+    `verify` up to and including `VerifierChannel::new`, neither as modelled by `Parse.verifyFront` (C06) nor by the
+    value-producing `channelParse` (`channelParse_np` above).  It is one of: the two panics of the real code
+    named in `RefVerifyTotal`; or a panic site of the decision function `VerifierChecks.verify` reached AFTER the
+    whole front end passed (its index sites `fold_positions`, `get_query_values`, … — unreachability not proved).
+    Missing from the full statement: exactly the last alternative. -/
 theorem refVerify_never_panics_partial (d : Desc) (pubs : List Nat) (acc : Acceptable) (bs : List Nat)
     (hb : BytesOk bs) (hcols : ∀ ti o n, airNew (frontAir d) ti o = some n → n ≤ 255)
     (s : String) (h : refVerify d pubs acc bs = .err (.panic s)) :
     s = "AIR::new" ∨ s = "evaluate_constraints" ∨
-    (s = "VerifierChannel::new" ∧ ∃ p ncols, (parseProof bs).1 = .ok p ∧ (verifyFront (frontAir d) p).1 = .pass ∧
-        channelParse (chanCfg p.context ncols) p = .panic) ∨
     (∃ p ncols E c, FrontPassed d pubs acc bs p ncols E c ∧
         VerifierChecks.verify (mkVerifier E d pubs acc) p.context (some (committedOf c, openedOf c))
           = .error (.panic s)) := by
@@ -386,16 +613,34 @@ theorem refVerify_never_panics_partial (d : Desc) (pubs : List Nat) (acc : Accep
           split at h
           · rename_i ncols E hair hext
             split at h
-            · injection h with h; injection h with h
-              rename_i hc
-              exact Or.inr (Or.inr (Or.inl ⟨h.symm, p, ncols, hp, hpass, hc⟩))
+            · rename_i hc
+              exfalso
+              obtain ⟨hctx, hnq, _, hlen, _⟩ := hpok
+              obtain ⟨hm0, hw, _, _⟩ := ti_facts _ hctx.1
+              obtain ⟨_, _, _, _, hf2, hext, _, _⟩ := opt_facts _ hctx.2.1
+              refine channelParse_np (chanCfg p.context ncols) p np_elemDigest64 hlen ?_ (by omega)
+                ⟨hm0, by show p.context.traceInfo.main ≤ 255; omega⟩ ?_
+                ⟨airNew_pos _ _ _ _ hair, hcols _ _ _ hair⟩ ?_ ?_ hc
+              · show 1 ≤ p.context.traceInfo.numSegments
+                unfold Serde.TraceInfo.numSegments; split <;> omega
+              · intro h2
+                have h2' : 2 ≤ p.context.traceInfo.numSegments := h2
+                unfold Serde.TraceInfo.numSegments at h2'
+                split at h2'
+                · exact ⟨by show p.context.traceInfo.aux ≠ 0; omega, by show p.context.traceInfo.aux ≤ 255; omega⟩
+                · omega
+              · show F64.impl.bytes * p.context.options.fieldExt ≠ 0
+                have : F64.impl.bytes = 8 := by decide
+                rw [this]; omega
+              · show p.context.options.folding ≠ 0
+                omega
             · cases h
             · rename_i c hc
               split at h
               · injection h with h; injection h with h; exact Or.inr (Or.inl h.symm)
               · rename_i hprep
-                refine Or.inr (Or.inr (Or.inr ⟨p, ncols, E, c,
-                  ⟨hp, Decidable.of_not_not hmod, hpol, hpass, hair, hext, hc, ?_⟩, ?_⟩))
+                refine Or.inr (Or.inr ⟨p, ncols, E, c,
+                  ⟨hp, Decidable.of_not_not hmod, hpol, hpass, hair, hext, hc, ?_⟩, ?_⟩)
                 · cases hq : prepOf E d pubs p.context.traceInfo with
                   | none => rw [hq] at hprep; simp at hprep
                   | some _ => rfl
